@@ -59,6 +59,12 @@ class C09(C01):
             yield T.mk_case(content, [], options=opts, retries=rng.choice([0, 1, 2]), events=ev,
                             proc=rng.choice([0, 0, 1, 2047, 2048]))
 
+        # very many foreign datagrams inside one try (each is answered, none of them costs more than its ERROR 5:
+        # no state may grow with their number), then the peer's ACK
+        for (n, a) in ((1500, 1), (1200, 4)) if quick else ((1500, 1), (1200, 4), (5000, 2), (3000, 5)):
+            ev = [(1 + (i * 1000) // n, a, T.ack(1) if i % 2 else b"") for i in range(n)] + [(1500, 0, T.ack(1)), (1501, 0, T.ack(2))]
+            yield T.mk_case(content, [], retries=1, events=ev)
+
     def nontrivial(self, c, obs):
         return (tuple(c["events"]), tuple(c["options"]))
 
